@@ -375,12 +375,33 @@ def run_property(prop, tier="quick", seed=None):
 
 
 def replay_file(path):
+    """Re-decide one recorded obligation on the CURRENT tree: the whole check of its property is re-run (quick tier, same seed)
+    and the obligation is looked up by name; exit 1 iff it fails again (its native replay, where it has one, is shown)."""
     d = json.load(open(path))
+    prop = d["property"]
+    name = d["obligation"]
     mod = importlib.import_module(d["module"])
-    fn = getattr(mod, "replay", None)
-    if fn is None:
-        print("no replay() in %s" % d["module"])
-        return 3
-    res = fn(d["obligation"], d.get("counterexample"))
+    ctx = Ctx(prop, "quick", int(os.environ.get("VERIF_SEED", "0")), d["module"])
+    try:
+        from . import field as _field
+        _field.N_POINTS = 3
+    except Exception:
+        pass
+    try:
+        mod.run(ctx)
+    except Exception:
+        ctx.add(Ob(prop + ".engine", "guard", "error", "python", 0.0, traceback.format_exc()[-800:]))
+    o = next((o for o in ctx.obs if o.name == name), None)
+    if o is None:
+        import re as _re
+        fam = _re.sub(r"\.path\d+", "", name)
+        o = next((o for o in ctx.obs if _re.sub(r"\.path\d+", "", o.name) == fam), None)
+    res = dict(obligation=name, property=prop,
+               status_on_this_tree=(o.status if o is not None else "not generated on this tree"),
+               reproduced=bool(o is not None and o.status == "failed"),
+               verifier_detail=(o.detail[:600] if o is not None else None),
+               counterexample=(o.cex if o is not None else None),
+               native_replay=(o.native if o is not None else None),
+               recorded=dict(counterexample=d.get("counterexample"), native_replay=d.get("native_replay")))
     print(json.dumps(res, indent=1, default=str))
-    return 1 if res.get("reproduced") else 0
+    return 1 if res["reproduced"] else 0
